@@ -483,46 +483,81 @@ theorem firstAccepted_none_of_ge {σ : List Probe} {k t : Nat} (h : ∀ q ∈ σ
   have := h q hq
   simp; omega
 
+/-- the serial engine's slots are the fold of `writeProbe` over the replies it accepted (after the
+    `fix:` for F10 the serial engine uses the parallel engine's slot rule) -/
+theorem serialLoop_foldl {min max : Nat} : ∀ (ws : List (List ROut)) (s s' : Slots),
+    serialLoop min max s ws = .ok s' → s' = (serialAccepted min max ws).foldl writeProbe s := by
+  intro ws
+  induction ws with
+  | nil => intro s s' h; simp [serialLoop] at h; subst h; simp [serialAccepted]
+  | cons w ws ih =>
+    intro s s' h
+    simp only [serialLoop] at h
+    split at h
+    · simp at h
+    · rename_i hw
+      simp only [serialAccepted, hw]
+      exact ih s s' h
+    · rename_i p hw
+      simp only [serialAccepted, hw]
+      split at h
+      · rename_i hd
+        simp only [Except.ok.injEq] at h; subst h
+        simp [hd, serialWrite]
+      · rename_i hd
+        have := ih (serialWrite s p) s' h
+        simp only [hd, Bool.false_eq_true, if_false, List.foldl_cons]
+        exact this
+
+/-- from empty slots: the serial result is `merge` of the accepted replies -/
+theorem serialLoop_merge {min max : Nat} {ws : List (List ROut)} {s : Slots}
+    (h : serialLoop min max emptySlots ws = .ok s) : s = merge (serialAccepted min max ws) :=
+  serialLoop_foldl ws emptySlots s h
+
 /-- with aligned windows every slot holds the earliest (indeed the only) reply accepted for its
-    TTL; slots without a reply keep their previous content -/
+    TTL; slots without a reply keep their previous content (the slots of the windows still to come
+    are empty) -/
 theorem serialLoop_aligned {min max : Nat} : ∀ (ws : List (List ROut)) (k : Nat) (s s' : Slots),
-    Aligned min max k ws → serialLoop min max s ws = .ok s' →
+    Aligned min max k ws → (∀ u, k ≤ u → s u = none) → serialLoop min max s ws = .ok s' →
     ∀ t, s' t = match firstAccepted (serialAccepted min max ws) t with
                 | some p => some p
                 | none => s t := by
   intro ws
   induction ws with
-  | nil => intro k s s' _ h t; simp [serialLoop] at h; subst h; simp [serialAccepted, firstAccepted]
+  | nil => intro k s s' _ _ h t; simp [serialLoop] at h; subst h; simp [serialAccepted, firstAccepted]
   | cons w ws ih =>
-    intro k s s' ha h t
+    intro k s s' ha hs h t
     obtain ⟨h1, h2⟩ := ha
     simp only [serialLoop] at h
     split at h
     · simp at h
     · rename_i hw
       simp only [serialAccepted, hw]
-      exact ih (k + 1) s s' h2 h t
+      exact ih (k + 1) s s' h2 (fun u hu => hs u (by omega)) h t
     · rename_i p hw
       have hk := h1 p hw
+      have hwr : serialWrite s p = fun t => if t = p.ttl then some p else s t :=
+        serialWrite_empty (by rw [hk]; exact hs k (Nat.le_refl k))
       simp only [serialAccepted, hw]
       split at h
       · rename_i hd
         simp only [Except.ok.injEq] at h; subst h
-        simp only [hd, if_true, firstAccepted, List.find?, serialWrite]
+        simp only [hd, if_true, firstAccepted, List.find?, hwr]
         by_cases htt : t = p.ttl
         · subst htt; simp
         · have : (p.ttl = t) = False := by simp; exact fun e => htt e.symm
           simp [htt, this]
       · rename_i hd
-        have hrec := ih (k + 1) (serialWrite s p) s' h2 h t
+        have hrec := ih (k + 1) (serialWrite s p) s' h2
+          (fun u hu => by rw [hwr]; simp only; rw [if_neg (by omega)]; exact hs u (by omega)) h t
         rw [hrec]
         simp only [hd, Bool.false_eq_true, if_false, firstAccepted, List.find?]
         by_cases htt : t = p.ttl
         · subst htt
           have hnone := firstAccepted_none_of_ge (aligned_ge ws (k + 1) h2) (by omega : p.ttl < k + 1)
           unfold firstAccepted at hnone
-          simp [hnone, serialWrite]
+          simp [hnone, hwr]
         · have : (p.ttl = t) = False := by simp; exact fun e => htt e.symm
-          simp only [this, decide_false, serialWrite, htt, if_false]
+          simp only [this, decide_false, hwr, htt, if_false]
 
 end TRV.Proofs.Timed
